@@ -14,7 +14,10 @@ diagrams are checked by the bounded round-trip harness through the real entry po
 MODULE = "tel2puml/pv_event_simulator.py"
 FILES = {"": "tel2puml/pv_event_simulator.py", "save_pv_event_stream_to_file": "tel2puml/otel_to_pv/otel_to_pv.py",
          "handle_save_events": "tel2puml/otel_to_pv/otel_to_pv.py",
-         "pv_job_file_to_event_sequence": "tel2puml/pv_to_puml/pv_to_puml.py"}
+         "pv_job_file_to_event_sequence": "tel2puml/pv_to_puml/pv_to_puml.py",
+         "pv_job_files_to_event_sequence_streams": "tel2puml/pv_to_puml/pv_to_puml.py",
+         "pv_event_files_to_job_id_streams": "tel2puml/pv_to_puml/pv_to_puml.py",
+         "pv_files_to_pv_streams": "tel2puml/pv_to_puml/pv_to_puml.py"}
 USES_FS = True
 # the saved file's path determines the file number (the template ends in "_{count}.json" and a decimal number contains no "_")
 FSTRING_INJECTIVE = {"{}/{}/pv_event_sequence_{}.json": [2]}
@@ -34,6 +37,10 @@ def _name(f):          # the key a field is saved under: its own name without a 
 
 _PATH = 'f"{output_file_directory}/{job_name}/pv_event_sequence_{count}.json"'
 _PATHN = _PATH.replace("{count}", "{n}")
+
+
+# a file that loads: it exists and every entry has the mandatory (renamed) keys
+_OKF = "({p} in fs.files and all(" + " and ".join(f"mapping_config.{f} in d" for f in _MANDATORY) + " for d in fs.files[{p}]))"
 
 
 def _frame(pre, untouched):
@@ -143,12 +150,55 @@ CONTRACTS = {
             "src": "ds == fs.files[file_path]"}}},
         "ensures": {"loads_every_entry": "result == [transform_dict_into_pv_event(d, mapping_config) for d in fs.files[file_path]]"},
     },
+    # the loader's side of "one file = one trace": the k-th file of the list becomes, whole and alone, the k-th event sequence
+    "pv_job_files_to_event_sequence_streams": {
+        "params": {"file_paths": "list[str]"},
+        "returns": "list[list[dict[str, Any]]]",
+        "generator": True,
+        "requires": {"typed": "all(implies(p in fs.files, all(valid_pv_values(d, mapping_config) for d in fs.files[p])) for p in file_paths)"},
+        # the first file that cannot be loaded decides (generators are read as lists: everything is consumed)
+        "raises": {"FileNotFoundError": "any(file_paths[i] not in fs.files and all(" + _OKF.format(p="file_paths[j]") + " for j in range(i)) for i in range(len(file_paths)))",
+                   "ValueError": "any(file_paths[i] in fs.files and not " + _OKF.format(p="file_paths[i]") + " and all(" + _OKF.format(p="file_paths[j]") + " for j in range(i)) "
+                                 "for i in range(len(file_paths)))"},
+        "loops": {0: {"index": "i", "seq": "ps", "invariant": {
+            "src": "ps == file_paths",
+            "count": "len(yielded) == i",
+            "ok": "all(" + _OKF.format(p="ps[j]") + " for j in range(i))",
+            "each": "all(yielded[j] == [transform_dict_into_pv_event(d, mapping_config) for d in fs.files[ps[j]]] for j in range(i))",
+        }}},
+        "ensures": {
+            "one_sequence_per_file": "len(result) == len(file_paths) and "
+                                     "all(result[j] == [transform_dict_into_pv_event(d, mapping_config) for d in fs.files[file_paths[j]]] for j in range(len(file_paths)))",
+        },
+    },
+    # ... and pv2puml hands exactly that to the learner, under the workflow name it was given (job files, not grouped by job id: the
+    # route of C14; the grouping of single-event files by job id goes through another module and is not covered here)
+    # (never reached under the precondition of pv_files_to_pv_streams below; nothing is assumed of it)
+    "pv_event_files_to_job_id_streams": {"trusted": True, "params": {"file_list": "list[str] | None"}, "returns": "list[list[dict[str, Any]]]", "ensures": {}},
+    "pv_files_to_pv_streams": {
+        "params": {"file_list": "list[str] | None", "group_by_job_id": "bool"},
+        "returns": "list[tuple[str, list[list[dict[str, Any]]]]]",
+        "generator": True,
+        "requires": {"job_files": "not group_by_job_id",
+                     "typed": "implies(file_list is not None, all(implies(p in fs.files, all(valid_pv_values(d, mapping_config) for d in fs.files[p])) for p in file_list))"},
+        "raises": {"FileNotFoundError": "file_list is not None and any(file_list[i] not in fs.files and all(" + _OKF.format(p="file_list[j]") + " for j in range(i)) for i in range(len(file_list)))",
+                   "ValueError": "file_list is not None and any(file_list[i] in fs.files and not " + _OKF.format(p="file_list[i]") + " and all(" + _OKF.format(p="file_list[j]") + " for j in range(i)) "
+                                 "for i in range(len(file_list)))"},
+        "ensures": {
+            "one_workflow": "len(result) == 1 and result[0][0] == job_name",
+            "one_sequence_per_file": "implies(file_list is None, len(result[0][1]) == 0) and implies(file_list is not None, len(result[0][1]) == len(file_list) and "
+                                     "all(result[0][1][j] == [transform_dict_into_pv_event(d, mapping_config) for d in fs.files[file_list[j]]] for j in range(len(file_list))))",
+        },
+    },
 }
 ORDER = [
     "transform_dict_into_pv_event",
     "save_pv_event_stream_to_file",
     "handle_save_events",
     "pv_job_file_to_event_sequence",
+    "pv_job_files_to_event_sequence_streams",
+    "pv_event_files_to_job_id_streams",
+    "pv_files_to_pv_streams",
     # loading a dict that was saved from a PV event under a mapping with distinct names gives the event back
     {"name": "load_inverts_save_event",
      "forall": {"e": "dict[str, Any]", "d": "dict[str, Any]", "c": "PVEventMappingConfig"},
@@ -360,6 +410,11 @@ def _mat(nat, d):
     elif d["fn"] == "handle_save_events":
         out.update({"job_name": d["job_name"], "pv_event_streams": [[dict(e) for e in st] for st in d["streams"]],
                     "output_file_directory": f"{root}/{d.get('outdir', 'out')}", "mapping_config": cfg})
+    elif d["fn"] == "pv_job_files_to_event_sequence_streams":
+        out.update({"file_paths": [f"{root}/{f}" for f in d["paths"]], "mapping_config": cfg})
+    elif d["fn"] == "pv_files_to_pv_streams":
+        out.update({"file_list": None if d["paths"] is None else [f"{root}/{f}" for f in d["paths"]], "job_name": d["job_name"], "group_by_job_id": False,
+                    "mapping_config": cfg})
     else:
         out.update({"file_path": f"{root}/{d['file']}", "mapping_config": cfg})
     return out
@@ -436,8 +491,53 @@ def _gen_file(nat, rng, n):
                          "file": "in/job.json" if rng.random() > 0.1 else "in/missing.json"})
 
 
+def _gen_files(fn):
+    def gen(nat, rng, n):
+        import importlib
+        t = importlib.import_module("tel2puml.tel2puml_types")
+        cfgs = list(_cfgs(nat))
+        for i in range(n):
+            cfgd = cfgs[i % len(cfgs)]
+            cfg = t.PVEventMappingConfig(**cfgd)
+            files = {}
+            for k in range(rng.randrange(0, 4)):
+                content = []
+                for _ in range(rng.randrange(0, 3)):
+                    e = _event(rng)
+                    d = {getattr(cfg, kk): v for kk, v in e.items()}
+                    if rng.random() < 0.07:
+                        d.pop(getattr(cfg, rng.choice(_MANDATORY)))
+                    content.append(d)
+                files[f"in/job{k}.json"] = content
+            paths = list(files)
+            rng.shuffle(paths)
+            if rng.random() < 0.1:
+                paths.insert(rng.randrange(len(paths) + 1), "in/missing.json")
+            if paths and rng.random() < 0.15:
+                paths.append(paths[0])                 # the same file twice in the list
+            d = {"fn": fn, "cfg": cfgd, "files": files, "paths": paths}
+            if fn == "pv_files_to_pv_streams":
+                d["job_name"] = rng.choice(["wf", "wf one", ""])
+                if rng.random() < 0.1:
+                    d["paths"] = None
+            yield _mat(nat, d)
+    return gen
+
+
+def _listed(fn):
+    """the real generators, consumed (list reading): the inner generator of pv_files_to_pv_streams too"""
+    def run(nat, args):
+        import importlib
+        m = importlib.import_module("tel2puml.pv_to_puml.pv_to_puml")
+        out = list(getattr(m, fn)(**args))
+        return [(name, list(seqs)) for name, seqs in out] if fn == "pv_files_to_pv_streams" else out
+    return run
+
+
+NATIVE_CALL = {fn: _listed(fn) for fn in ("pv_job_files_to_event_sequence_streams", "pv_files_to_pv_streams")}
 GEN = {"transform_dict_into_pv_event": _gen_load, "save_pv_event_stream_to_file": _gen_save, "handle_save_events": _gen_handle,
-       "pv_job_file_to_event_sequence": _gen_file}
+       "pv_job_file_to_event_sequence": _gen_file, "pv_job_files_to_event_sequence_streams": _gen_files("pv_job_files_to_event_sequence_streams"),
+       "pv_files_to_pv_streams": _gen_files("pv_files_to_pv_streams")}
 
 
 class _Enc(dict):
